@@ -16,3 +16,12 @@ func VerifAppendPDFObject(dst []byte, obj types.Object) ([]byte, error) {
 func VerifBookletOrdering(pages types.IntSet, nup *model.NUp) []model.BookletPage {
 	return getBookletOrdering(pages, nup)
 }
+
+// VerifPermTable exposes pdfcpu's own classification of commands (extract, modify rights needed).
+func VerifPermTable() map[model.CommandMode][2]int {
+	out := map[model.CommandMode][2]int{}
+	for k, v := range perm {
+		out[k] = [2]int{v.extract, v.modify}
+	}
+	return out
+}
